@@ -345,6 +345,17 @@ var scenarios = []schedrig.Scenario{
 		stopSpinner(w, sp)
 		w.Close()
 	}},
+	{Name: "resize-request-while-rendering", Queue: 8, Body: func(w *schedrig.World) {
+		// the terminal changes size and a worker goroutine asks for a resize while the main goroutine is inside an
+		// ordinary Render: the request must survive that Render (the Resize event arrives, at the new size)
+		vsched.GoNamed("resizer", func() {
+			w.T.Resize(30, 8)
+			w.Vx.Resize()
+		})
+		w.Draw()
+		w.Until(func() bool { return w.Seen("resize:30x8") })
+		w.Close()
+	}},
 	{Name: "sigwinch", Queue: 8, Body: func(w *schedrig.World) {
 		vsched.AddEnv("SIGWINCH", true, func() bool { return true }, func() {
 			w.T.Resize(30, 8)
